@@ -41,13 +41,14 @@ func init() {
 			"For the next block the forge makes the honest material (proposer credential, every precommit with real VRF sortition proof and BLS signature, honest sealed block); a block forger holding a seeded subset of the validator keys derives forgeries, " +
 			"each constructed so that the LEGITIMATE weight (distinct online chamber members of the look-back set, proof valid for this round/index/step Precommit, signature over this header hash) is below floor(T*685/1000) by construction " +
 			"(or the proposer credential / aggregate signature is illegitimate by construction) and compensated by exactly one class of illegitimate material: duplicated entries, second proof of the same signer, votes replayed from another round / round index / step / block hash, " +
-			"non-member index, index of another member, outsider key, offline signer, House signer, inflated Votes, zero-seat voter, aggregate of a subset / garbage / empty / other message, votes in the House section, " +
+			"non-member index, index of another member, outsider key, offline signer, House signer, inflated Votes, zero-seat voter, aggregate of a subset / garbage / empty / other message, a lone quorum-sized vote with a foreign signature, votes in the House section, garbage vote section, " +
 			"author-lowered ValidatorThreshold (0,1,2,3,5,10,100,T/2; with and without votes), author-raised ProposerThreshold, zero-seat proposer, credential for another index, header or credential signed by another key, outsider proposer, inflated SubUsers, wrong priority, and combinations of two vote-level classes. " +
 			"Positive controls every run: the honest block; a random super-quorum subset; a vote subset whose weight is exactly the quorum (subset-sum over all subsets and up to 24 round indexes; closest if no exact hit, counted by probes) and one with weight quorum-1 (must be rejected). " +
 			"Every header is offered to the real verifier through Server.VerifyHeader(chain,header,true) (what the block fetcher calls), Server.VerifySeal, Server.VerifySideChainHeader with explicitly supplied look-back header and validator reader, " +
 			"BlockChain.InsertChain on a node that has the real parent chain (main import path) and BlockChain.InsertChain on a node that already holds the honest block at that height (side-chain path / known-block path). " +
 			"Oracle: every forgery is rejected on every path (an error; never stored, never canonical; a panic of the verifier counts as not rejected), every control accepted on every path. The quorum is computed by the check as floor(T*685/1000) with T = params.Versions[version in force].ValidatorThreshold, never from the header and never via ucon.OverThreshold. " +
-			"A run is non-trivial when at least one forgery was offered; the fingerprint is the sequence of (case kind, per-path outcome).",
+			"Offered without a verdict (probes obs.*): Offline/House proposer, votes made at a later or earlier round index than the proposal, consensus-data round field different from the header number, author-declared CertValThreshold=1. " +
+			"A run is non-trivial when at least one forgery was offered; the fingerprint is the sequence of (configuration bucket, case kind, verdict over all paths).",
 		Real: []string{"consensus/ucon: Server.VerifyHeader/VerifySeal/VerifySideChainHeader/VerifyHeaders, verifyVotes, VrfVerifySortition, VrfVerifyPriority, BlsVerifier.RecoverSignerInfo, ExtractUconValidators, BlockConsensusData",
 			"bls (real BLS12-381 aggregate verification)", "crypto/vrf/secp256k1", "core.BlockChain.InsertChain / insertSidechain / verifyAllSideChainBlocks, HeaderChain.VersionForRound, BlockValidator, StateProcessor",
 			"staking module (EndBlock, rewards: look-back validator records change with the chain)", "miner.worker + core.TxPool (honest chain growth)", "core/state validator tries read through BlockChain.GetVldReader"},
@@ -58,7 +59,9 @@ func init() {
 			"certificate sections (ChamberCerts of certificate rounds): params.ACoCHTFrequency = 32768 is a constant, no chain in this world reaches it; VerifyAcHeader is not exercised",
 			"BLS rogue-key registration (a validator registering a crafted BLS public key): needs the staking transaction path, not part of the header-level forger"},
 		Assumptions: []string{"a vote index (UconValidators.RoundIndex) later than the proposal's own round index is treated as legitimate (marked-block carry-over of the live protocol); it is offered as an observation, not judged",
-			"an Offline or House PROPOSER is offered as an observation only: the property restricts voters to online chamber members but only requires the proposer credential to verify under the protocol threshold"},
+			"an Offline or House PROPOSER is offered as an observation only: the property restricts voters to online chamber members but only requires the proposer credential to verify under the protocol threshold",
+			"for a header whose author declared another committee size the legitimate weight is counted leniently (the listed voters' seats under the PROTOCOL committee size, although the entries claim the seats of the declared size); the forgery is built so that even this is below the quorum",
+			"params.Versions is swapped per run (ValidatorThreshold, ProposerThreshold of YouV5) while no goroutine of the code under test exists; the honest side (forge) and the oracle read the same table"},
 		QuickBudget: 45 * time.Second, ThoroughBudget: 15 * time.Minute,
 		MinRuns:    16,
 		Exec:       run,
@@ -72,6 +75,7 @@ type setup struct {
 	T, Tp   uint64 // protocol ValidatorThreshold / ProposerThreshold installed for this run
 	nBlocks int    // honest blocks before the target block
 	whale   bool
+	rogue   int // index of the validator registered with a crafted (rogue) BLS key, -1: none
 }
 
 var (
@@ -98,6 +102,13 @@ func drawSetup(c *kit.Chooser) setup {
 		s.Offline = append(s.Offline, i >= 2 && c.Chance("offline", 1, 3))
 		s.House = append(s.House, i >= 2 && c.Chance("house", 1, 4))
 	}
+	s.rogue = -1
+	if c.Chance("rogue-bls-key", 1, 4) {
+		// the last validator: an online Senator with a small stake that never takes part honestly
+		s.rogue = s.NVals - 1
+		s.Stakes[s.rogue] = uint64(8000 + 1000*c.Intn("rogue-stake", 8))
+		s.Offline[s.rogue], s.House[s.rogue] = false, false
+	}
 	s.T = tChoices[c.Intn("T", len(tChoices))]
 	s.Tp = tpChoices[c.Intn("Tp", len(tpChoices))]
 	s.nBlocks = lengthChoices[c.Intn("chain-length", len(lengthChoices))]
@@ -112,12 +123,15 @@ type val struct {
 	online  bool
 	chamber bool
 	forger  bool // key held by the Byzantine forger
+	rogue   bool // registered with a crafted BLS public key; never votes or proposes honestly
 }
 
 func (v *val) name() string { return v.key.Name() }
 
 // voter reports whether v is entitled to vote: online chamber member of the look-back set.
-func (v *val) voter() bool { return v.rec != nil && v.online && v.chamber }
+// (The rogue-key validator is a member, online and chamber, but no honest material of it
+// exists: it is kept out of every pool of honest voters.)
+func (v *val) voter() bool { return v.rec != nil && v.online && v.chamber && !v.rogue }
 
 type fixture struct {
 	r        *kit.Run
@@ -142,6 +156,7 @@ type fixture struct {
 	pCache   map[uint32][]uint32 // proposer seats per validator at a round index, under Tp
 	clones   int
 	poisoned bool
+	rogueKey *chainkit.ValKey
 }
 
 func run(r *kit.Run) {
@@ -160,9 +175,9 @@ func run(r *kit.Run) {
 	params.Versions = tbl
 	defer func() { params.Versions = orig }()
 
-	r.Logf("setup nvals=%d stakes=%v offline=%v house=%v T=%d Tp=%d blocks=%d", su.NVals, su.Stakes, su.Offline, su.House, su.T, su.Tp, su.nBlocks)
-	chainworld.Run(r, su.Setup, func(w *chainworld.World) {
-		fx := &fixture{r: r, w: w, wCache: map[uint32][]uint32{}, pCache: map[uint32][]uint32{}}
+	r.Logf("setup nvals=%d stakes=%v offline=%v house=%v rogue=%d T=%d Tp=%d blocks=%d", su.NVals, su.Stakes, su.Offline, su.House, su.rogue, su.T, su.Tp, su.nBlocks)
+	runWorld(r, su.Setup, su.rogue, func(w *chainworld.World, rogueKey *chainkit.ValKey) {
+		fx := &fixture{r: r, w: w, wCache: map[uint32][]uint32{}, pCache: map[uint32][]uint32{}, rogueKey: rogueKey}
 		var err error
 		if fx.imA, err = chainkit.NewImporter(simdisk.NewNoLog(), w.Genesis, kit.Wait); err != nil {
 			panic(err)
@@ -172,7 +187,7 @@ func run(r *kit.Run) {
 			panic(err)
 		}
 		defer fx.imB.Stop(kit.Wait)
-		w.B.Engine.ProposerOrder = r.C.Perm("proposer-order", su.NVals)
+		w.B.Engine.ProposerOrder = r.C.Perm("proposer-order", len(w.B.Engine.Keys))
 
 		// honest prefix: blocks 1..N-1 on the builder and both importers
 		for i := 0; i < su.nBlocks; i++ {
@@ -242,7 +257,7 @@ func (fx *fixture) buildHonest(withTxs bool) *types.Block {
 		hasProposer := false
 		for _, gv := range w.Vals {
 			rec := chainkit.StakeOf(ctx, gv.Key)
-			if rec == nil || rec.Status != params.ValidatorOnline || rec.Kind() != params.KindChamber {
+			if rec == nil || rec.Status != params.ValidatorOnline || rec.Kind() != params.KindChamber || gv.Key == fx.rogueKey {
 				continue
 			}
 			_, _, j := ucon.VrfSortition(gv.Key.VrfSk, ctx.Seed, i, uint32(ucon.Precommit), yp.ValidatorThreshold, rec.Stake, ctx.TotalStake)
@@ -264,10 +279,14 @@ func (fx *fixture) buildHonest(withTxs bool) *types.Block {
 	}
 	w.B.Engine.StartIndex = idx
 	if withTxs {
+		// all transactions of one block come from ONE sender: equal-priced transactions of
+		// different senders are ordered by map iteration in the pool (DESIGN 2.10), which
+		// would make the block hash (printed in this world's trace) differ between replays
 		n := r.C.Intn("ntx", 3)
+		from := r.C.Intn("from", chainkit.NClients)
 		var txs []*types.Transaction
 		for j := 0; j < n; j++ {
-			txs = append(txs, w.Transfer(r.C.Intn("from", chainkit.NClients), chainworld.ClientAddr(r.C.Intn("to", chainkit.NClients)), big.NewInt(int64(1+r.C.Intn("amt", 1000))), 1))
+			txs = append(txs, w.Transfer(from, chainworld.ClientAddr(r.C.Intn("to", chainkit.NClients)), big.NewInt(int64(1+r.C.Intn("amt", 1000))), 1))
 		}
 		w.Submit(txs...)
 	}
@@ -323,6 +342,9 @@ func (fx *fixture) prepare() bool {
 			v.chamber = v.rec.Kind() == params.KindChamber
 		}
 		v.forger = r.C.Chance("forger-key", 1, 2) || all
+		if gv.Key == fx.rogueKey {
+			v.rogue, v.forger = true, true
+		}
 		if v.forger {
 			nForger++
 		}
@@ -376,6 +398,9 @@ func (fx *fixture) prepare() bool {
 		}
 		if v.forger {
 			d += ":F"
+		}
+		if v.rogue {
+			d += ":ROGUE-BLS-KEY"
 		}
 		desc = append(desc, d)
 	}
